@@ -102,6 +102,7 @@ var c36Lists = func() map[string]c36AddrList {
 		"K1": {v4: []netip.AddrPort{c36PUDP}},
 		"K2": {v4: []netip.AddrPort{c36I4, c36D4a, c36D4b, c36R4, c36PHi, c36PAlt, c36PUDP}, v6: []netip.AddrPort{c36I6, c36D6a, c36D6b, c36R6, c36G6}},
 		"K4": {v4: []netip.AddrPort{c36WUDP}},
+		"K6": {v4: []netip.AddrPort{c36WUDP, c36PUDP}}, // the wrong host and the right one: delivery order decides who answers first
 		"KL": {v4: []netip.AddrPort{c36LIn, c36LDen, c36LGood}},
 	}
 	var k3, k5 c36AddrList
@@ -315,7 +316,7 @@ func c36QuickCfgs() []c36Cfg {
 		{true, true, 2, c36SrcPlain},
 		{true, true, 3, c36SrcCalc},
 		{false, false, 2, c36SrcCalc},
-		{true, false, 4, c36SrcStatic},
+		{true, false, 2, c36SrcStatic},
 		{false, true, 4, c36SrcPlain},
 	}
 }
@@ -1063,7 +1064,7 @@ func (w *c36World) menu(thorough bool) []string {
 	var out []string
 	lists := []string{"K2", "K3", "K4", "K0"}
 	if thorough {
-		lists = []string{"K2", "K3", "K4", "K0", "K1", "K5"}
+		lists = []string{"K2", "K3", "K4", "K0", "K1", "K5", "K6"}
 	}
 	if w.cfg.Lighthouse {
 		for _, k := range lists {
@@ -1238,8 +1239,15 @@ func c36Seeds(cfg c36Cfg) [][]string {
 		[]string{src + "K2", "data"},                           // handshake in flight to every usable address
 		[]string{"from:" + c36PUDP.String(), "net", src + "K3"}, // tunnel initiated by P, twelve addresses reported
 	)
+	seeds = append(seeds,
+		[]string{src + "K2", "data", "net", "from:" + c36PAlt2.String()}, // tunnel with P, roamed to another usable address
+		[]string{src + "K2", "data", "net", "close:P"},                   // tunnel closed again (cache dropped unless P is static)
+		[]string{src + "K4", "data", "net", "tick"},                      // block in force and the handshake retransmitted
+		[]string{src + "K6", "data", "netrev"},                           // wrong host answered first, the right host's answer is stale
+		[]string{src + "K3", "data"},                                     // handshake in flight to the ten kept addresses
+	)
 	if cfg.Src == c36SrcStatic {
-		seeds = append(seeds, []string{"data", "net", "dns"})
+		seeds = append(seeds, []string{"data", "net", "dns"}, []string{"dns", "data"})
 	}
 	return seeds
 }
